@@ -276,8 +276,8 @@ class NativeRunner:
             try:
                 if not cl.holds(ns, olds.get(id(cl), {})):
                     fails.append(cl.text if isinstance(cl.text, str) else getattr(cl.text, "__name__", "clause"))
-            except NotEvaluable:
-                noteval += 1
+            except (NotEvaluable, NameError):
+                noteval += 1          # clause mentions ghost state that has no native counterpart
             except Exception as ex:
                 fails.append("%s  (evaluating the clause raised %r)" % (cl.text, ex))
         info = {"inputs": shown, "outcome": outcome, "result": _show_val(result), "noteval": noteval}
